@@ -4,6 +4,8 @@ import (
 	"bytes"
 	"net"
 	"testing"
+
+	"github.com/fatedier/frp/pkg/msg"
 )
 
 // Replay for C17 UDP payload round trip: datagrams with every byte value and
@@ -15,6 +17,13 @@ func TestVerifReplayUDPPayload(t *testing.T) {
 	}
 	la := &net.UDPAddr{IP: net.IPv4(10, 0, 0, 1), Port: 1}
 	ra := &net.UDPAddr{IP: net.ParseIP("2001:db8::1"), Port: 2}
+	// golden: the released protocol uses the standard base64 alphabet
+	if g := NewUDPPacket([]byte{0xfb, 0xef, 0xbe, 0xff, 0xff, 0xfe}, la, ra).Content; g != "++++///+" {
+		t.Fatalf("payload fb ef be ff ff fe travels as %q, the released protocol carries \"++++///+\"", g)
+	}
+	if b, err := GetContent(&msg.UDPPacket{Content: "++++///+"}); err != nil || !bytes.Equal(b, []byte{0xfb, 0xef, 0xbe, 0xff, 0xff, 0xfe}) {
+		t.Fatalf("released-protocol payload \"++++///+\" decodes to %x, err=%v", b, err)
+	}
 	for n := 0; n <= len(all); n++ {
 		m := NewUDPPacket(all[:n], la, ra)
 		back, err := GetContent(m)
